@@ -754,8 +754,126 @@ def sep_rule(ctx):
     return obs
 
 
+def adjacency_rule(ctx):
+    """C02.adjacent: operator fragments that could fuse with a neighbouring token are protected by spaces."""
+    import prectables as pt
+    from exprmodel import ExprModel, arm_table, bound_fields
+    ob = ctx.ob
+    tc = ctx.tc
+    obs = []
+    model = ExprModel(tc)
+    g = pt.main_expression_fn(tc, model, "proc_gen")
+    if g is None:
+        return [ob("C02.adjacent/anchor", False, "proc_gen/expr.rs", "expression generator not found")]
+    genf, gm, _n = g
+    table = arm_table(gm, model)
+    out_param = genf.param_names()[-1]
+    for v in model.variants:
+        if v not in table:
+            continue
+        arm, case = table[v][0]
+        names = [b for b in bound_fields(case).values() if b]
+        ev = pt.arm_events(arm["body"], names)
+        lits = [e[1] for e in ev if e[0] == "lit" and e[2] == out_param]
+        for lit in lits:
+            core = lit.strip()
+            if core in ("+", "-") and v in model.unary_variants():
+                okk = lit.startswith(" ")
+                obs.append(ob("C02.adjacent/%s" % v, okk, ctx.where(genf), "unary sign is written as %r: %s" % (lit, "a leading space keeps it from fusing with a preceding `%s` into `%s%s`" % (core, core, core) if okk else "directly after another `%s` it forms `%s%s` (increment/decrement): a syntax error" % (core, core, core)),
+                              witness=None if okk else "{{ a - -b }} emits D.a--D.b"))
+            elif re.fullmatch(r"[a-z]+", core) and core in ("typeof", "void", "instanceof", "in", "new", "delete"):
+                okk = lit.startswith(" ") and lit.endswith(" ")
+                obs.append(ob("C02.adjacent/%s" % v, okk, ctx.where(genf), "word operator is written as %r (must be space-delimited to stay a separate token)" % lit,
+                              witness=None if okk else "{{ a instanceof b }} emits D.ainstanceofD.b"))
+    return obs
+
+
+def userjs_rule(ctx, sites):
+    """C02.userjs: user JavaScript reaches the output only inside a function body followed by a line terminator, or through
+    custom_stmt_str (which separates statements); never by raw concatenation."""
+    ob = ctx.ob
+    obs = []
+    n = 0
+    for s in sites:
+        if s.fn["name"] == "custom_stmt_str":
+            continue  # the contract sink itself: "content must be valid statements ended by a semicolon"
+        pieces = s.pieces
+        for i, p in enumerate(pieces):
+            if p[0] != "hole":
+                continue
+            arg = sir.expr_str(p[1])
+            a = sir.strip_ref(p[1])
+            is_user = False
+            if a.get("k") == "path" and a["s"] in ("content", "script"):
+                is_user = True
+            if a.get("k") == "field" and a["name"] in USER_JS_FIELDS:
+                is_user = True
+            if not is_user:
+                continue
+            n += 1
+            nxt = pieces[i + 1][1] if i + 1 < len(pieces) and pieces[i + 1][0] == "lit" else ""
+            prv = pieces[i - 1][1] if i > 0 and pieces[i - 1][0] == "lit" else ""
+            okk = nxt.startswith("\n") and prv.rstrip().endswith("{")
+            fname = "%s%s" % ((s.fn.get("_impl") + "::") if s.fn.get("_impl") else "", s.fn["name"])
+            obs.append(ob("C02.userjs/%s/%s" % (fname, arg), okk, s.where,
+                          "user script `%s` is pasted as %r{}%r: %s" % (arg, prv[-12:], nxt[:6], "inside a function body and followed by a line terminator" if okk else
+                                                                      "a body ending in a `//` comment without a final newline comments out the closing `})` of its wrapper"),
+                          witness=None if okk else '<wxs module="m">exports.a = 1 // note</wxs> : the generated `...=>{exports.a = 1 // note})()` does not parse'))
+    # raw uses of the extra runtime string
+    tc = ctx.tc
+    for f in tc.fns:
+        if not f.body or "group" not in f.module or (f.trait and f.trait.split("::")[-1] in ("Debug", "Clone")):
+            continue
+        pm = sir.parent_map(f.body)
+        for x in sir.walk(f.body):
+            if x.get("k") == "field" and x["name"] == "extra_runtime_string":
+                par = pm.get(id(x))
+                chain = []
+                p = x
+                while id(p) in pm and len(chain) < 4:
+                    p = pm[id(p)]
+                    chain.append(p)
+                how = None
+                for c in chain:
+                    if c.get("k") == "mcall" and c["m"] == "custom_stmt_str":
+                        how = "custom_stmt_str"
+                        break
+                    if c.get("k") == "mcall" and c["m"] in ("len", "is_empty") and sir.root_expr_name(c["recv"]) == "self":
+                        how = "test"
+                        break
+                    if c.get("k") == "mcall" and c["m"] == "push_str" and sir.expr_str(c["recv"]).endswith("extra_runtime_string"):
+                        how = "state"
+                        break
+                    if c.get("k") == "assign" and c["l"] is x:
+                        how = "state"
+                        break
+                    if c.get("k") == "struct":
+                        how = "state"
+                        break
+                    if c.get("k") == "binary" and c["op"] in ("+", "+="):
+                        how = "concat"
+                        break
+                if how in ("custom_stmt_str", "test", "state"):
+                    continue
+                n += 1
+                obs.append(ob("C02.userjs/%s/extra_runtime_string" % f.qual, False, ctx.where(f),
+                              "the extra runtime script is %s to emitted code instead of going through custom_stmt_str(): no `;` separates it from the preceding statement" % ("concatenated" if how == "concat" else "pasted"),
+                              witness="set_extra_runtime_script(\"var x=1;\") on a group without scripts: get_runtime_string() = `...var Q={...}var x=1;`"))
+    obs.append(ob("C02.userjs/scan", True, "group.rs, proc_gen/tag.rs", "%d user-JavaScript sinks examined" % n))
+    return obs
+
+
 def run(ctx):
     obs, sites = holes_rule(ctx)
+    obs += adjacency_rule(ctx)
+    obs += userjs_rule(ctx, sites)
+    from rules.c12 import find_escaper, check_escaper
+    ef = find_escaper(ctx.tc)
+    if ef is not None:
+        o, _ = check_escaper(ctx, ef, ctx.mir, "glass_easel_template_compiler", "C02.escaper")
+        obs += o
+    else:
+        obs.append(ctx.ob("C02.escaper/anchor", False, "escape.rs", "string-literal emitter not found"))
     obs += validated_ident_rule(ctx)
     obs += ident_rule(ctx, sites)
     obs += sep_rule(ctx)
